@@ -55,7 +55,6 @@ TYPING_STRUCTS = {
 NON_TYPING = {
     (('XFunc', 'XFunc'), 'short_circuit_overloads'): 'evaluation-strategy flag of the stub overloads registered for the unknown type; not part of a signature',
     (('XCallable', 'XFunc'), 'short_circuit_overloads'): 'evaluation-strategy flag; not part of a signature',
-    (('XCallable', 'XFunc'), 'required'): 'a callable slot is always called with all of its arguments, so optional parameters of the function behave as required ones',
 }
 TYPING_FIELDS = {('Compound', 'Compound'): {'name'}}
 
